@@ -16,8 +16,8 @@ import numpy as np  # noqa: E402
 import zlib  # noqa: E402
 from traits.api import (  # noqa: E402
     Any, Array, Bool, Bytes, CBool, CBytes, CComplex, CFloat, CInt, CStr, Callable, Complex, Either, Enum, Float,
-    HasTraits, Instance, Int, Map, Module, PrefixList, PrefixMap, Range, Str, String, This, TraitError, Tuple,
-    Type, Union)
+    HasTraits, Instance, Int, Map, Module, PrefixList, PrefixMap, Range, Regex, Str, String, Supports, This, Title,
+    TraitError, Tuple, Type, Undefined, Union)
 
 SCALE = 1000
 ADDR = re.compile(r"0x[0-9a-f]{6,}")
@@ -125,7 +125,7 @@ CLASSES = {0: object, 1: type(None), 2: bool, 3: int, 4: float, 5: complex, 6: s
            10: IntSub, 11: FloatSub, 12: StrSub, 13: TupSub, 14: np.int32, 15: np.int64, 16: np.uint8,
            17: np.float32, 18: np.float64, 19: np.bool_, 20: Idx, 21: Flt, 22: Cpx, 23: types.FunctionType,
            24: type, 25: types.ModuleType, 26: dict, 28: types.BuiltinFunctionType,
-           30: Proxy, 100: Foo, 101: Bar, 102: Baz, 103: FooAdapter, 110: HostBase, 111: HostSubBase}
+           30: Proxy, 31: type(Undefined), 100: Foo, 101: Bar, 102: Baz, 103: FooAdapter, 110: HostBase, 111: HostSubBase}
 NPK = {14: np.int32, 15: np.int64, 16: np.uint8, 17: np.float32, 18: np.float64}
 OTHERS = {-1: lambda: {}, -2: lambda: {1: 2}, -3: lambda: {1}, 1: lambda: object(), 2: lambda: frozenset([1])}
 MODULES = {0: math, 1: re}
@@ -289,6 +289,8 @@ class Pool:
             return make_array(j[1], j[2], j[3])
         if k == "PProxy":
             return Proxy(self.obj(j[1], j[2]))
+        if k == "PUndefined":
+            return Undefined
         raise ValueError(j)
 
     # ---- Python value -> JSON (exact type tag + atom) ----
@@ -296,6 +298,8 @@ class Pool:
         t = type(v)
         if v is None:
             return ["PNone"]
+        if v is Undefined:
+            return ["PUndefined"]
         if t is bool:
             return ["PBool", v]
         if t is int:
@@ -375,6 +379,8 @@ def trait(d, pool):
     k = d[0]
     simple = {"DAny": Any, "DInt": Int, "DFloat": Float, "DComplex": Complex, "DStr": Str, "DBytes": Bytes,
               "DBool": Bool, "DModule": Module}
+    if k == "DStr" and len(d) > 1 and d[1] == "Title":      # Str subclass with the same fast descriptor
+        return Title()
     if k in simple:
         return simple[k]()
     if k == "DCast":
@@ -410,6 +416,8 @@ def trait(d, pool):
             return Instance(pool.classes[d[1]].__name__, allow_none=bool(d[2]), module=__name__)
         return Instance(pool.classes[d[1]], allow_none=bool(d[2]))
     if k == "DAdapt":
+        if len(d) > 5 and d[5] == "Supports" and d[2] == 1:     # Supports(K): Instance with adapt='yes' by default
+            return Supports(pool.classes[d[1]], allow_none=bool(d[3]))
         return Instance(pool.classes[d[1]], adapt={1: "yes", 2: "default"}[d[2]], allow_none=bool(d[3]))
     if k == "DSelf":
         return This(allow_none=bool(d[1]))
@@ -421,6 +429,8 @@ def trait(d, pool):
         kw = dict(minlen=d[1], maxlen=d[2])
         if d[3] is not None:
             kw["regex"] = REGEX[d[3]]
+        if len(d) > 4 and d[4] == "Regex":     # Regex(regex=...): String subclass
+            return Regex(regex=REGEX[d[3]])
         return String(**kw)
     if k == "DPrefixList":
         return PrefixList(["".join(chr(c) for c in s) for s in d[1]])
